@@ -49,6 +49,7 @@ class Generated:
         self.unit = None
         self.rules_used = set()
         self.opts = {}
+        self.auto_stubbed = []
 
 
 def parse_opts(words):
@@ -82,7 +83,7 @@ def add_ensures_false(sig):
     return head + '\n    ensures false,\n'
 
 
-def generate(unit_dir, mustfail=False, mutate=None, variant=None, template='unit.rs', plain=False):
+def generate(unit_dir, mustfail=False, mutate=None, variant=None, template='unit.rs', plain=False, auto_stubs=None):
     """mutate: (qual, find, replace) applied to the raw extracted text of that fn.
     variant: name of a scenario variant; lines between `//@@ variant <name>` and
     `//@@ endvariant` are kept only for that variant (lines under `//@@ variant default`
@@ -152,7 +153,7 @@ def generate(unit_dir, mustfail=False, mutate=None, variant=None, template='unit
             rel, qual = words[1], words[2]
             o = parse_opts(words[3:])
             spec = dict(rules=set(o.get('rules', '').split(',')) - {''}, loops={}, loopbody={}, afterloop={},
-                        closures={}, afterclosure={}, macros={})
+                        closures={}, afterclosure={}, macros={}, aliases={})
             if o.get('rename'):
                 spec['rename'] = o['rename']
             if o.get('retname'):
@@ -200,6 +201,9 @@ def generate(unit_dir, mustfail=False, mutate=None, variant=None, template='unit
                     spec['closures'][int(hdr[1])] = ' '.join(x.strip() for x in body if x.strip())
                 elif k == 'afterclosure':
                     spec['afterclosure'][int(hdr[1])] = txt
+                elif k == 'alias':
+                    spec['aliases'][hdr[1]] = hdr[2]
+                    spec['rules'].add('R8')
                 elif k == 'macro':
                     spec['macros'][hdr[1]] = ' '.join(x.strip() for x in body if x.strip())
                 else:
@@ -227,9 +231,16 @@ def generate(unit_dir, mustfail=False, mutate=None, variant=None, template='unit
                 spec = dict(rules=spec['rules'] & {'R3'}, plain=True, rename=spec.get('rename'))
             txt, sh = transform.transform_fn(src, spec)
             rec.n_loops, rec.n_closures = len(sh.loops), len(sh.closures)
+            if o.get('pub'):
+                txt = 'pub ' + txt.lstrip()
             if o.get('attr'):
                 txt = '#[%s]\n' % o['attr'] + txt
             indent = line[:len(line) - len(line.lstrip())]
+            for st in (auto_stubs or {}).get(qual, []):
+                if st['kind'] in ('free', 'method'):
+                    stxt = stub_text(st, plain)
+                    out.extend((indent + l if l.strip() else l) for l in stxt.split('\n'))
+                    g.auto_stubbed.append(st['qual'])
             first = len(out) + 1
             out.extend((indent + l if l.strip() else l) for l in txt.split('\n'))
             rec.gen_lines = (first, len(out))
@@ -238,8 +249,40 @@ def generate(unit_dir, mustfail=False, mutate=None, variant=None, template='unit
             raise ExtractError('%s: unknown directive %s' % (tpath, cmd))
     if mutate and not mutated:
         raise ExtractError('mutant target %s not extracted by this unit' % mutate[0])
+    mods = {}
+    for lst in (auto_stubs or {}).values():
+        for st in lst:
+            if st['kind'] == 'module':
+                mods.setdefault(st['module'], {})[st['qual']] = st
+    if mods:
+        k = max(n for n, l in enumerate(out) if l.startswith('fn main()'))
+        extra = []
+        for mod, sts in mods.items():
+            extra.append('pub mod %s { use super::*; %s' % (mod, '' if plain else 'use vstd::prelude::*; verus! {'))
+            for st in sts.values():
+                stxt = stub_text(st, plain).lstrip()
+                if stxt.startswith('#[verifier::external_body]'):
+                    first, rest = stxt.split('\n', 1)
+                    stxt = first + '\npub ' + rest.lstrip()
+                else:
+                    stxt = 'pub ' + stxt
+                extra.extend(stxt.split('\n'))
+                g.auto_stubbed.append(mod + '::' + st['qual'])
+            extra.append('}' if plain else '} }')
+        out[k:k] = extra
     g.text = '\n'.join(out)
     return g
+
+
+def stub_text(st, plain):
+    rf = load(st['file'])
+    a, kw, bo, bc = rf.find_fn(st['qual'])
+    raw = rf.text[a:bc + 1]
+    if plain:
+        return transform.strip_attrs_and_vis(raw)
+    head = transform.strip_attrs_and_vis(rf.text[a:bo])
+    head = re.sub(r'\basync\s+', '', head)
+    return '#[verifier::external_body] // AUTO-STUB: callee without a contract (new or not listed in the unit)\n' + head.rstrip() + ' { unimplemented!() }'
 
 
 def publicize(txt, kind):
@@ -297,6 +340,54 @@ def expand_includes(lines, depth=0):
         else:
             out.append(line)
     return out
+
+
+def unresolved_callees(g, diags):
+    out = []
+    lines = g.text.split('\n')
+    for d in diags:
+        if d.get('level') != 'error':
+            continue
+        code = (d.get('code') or {}).get('code')
+        msg = d.get('message', '')
+        prim = [sp for sp in d.get('spans', []) if sp.get('is_primary')]
+        if not prim:
+            continue
+        ln = prim[0]['line_start']
+        rec = next((r for r in g.fns if r.gen_lines[0] <= ln <= r.gen_lines[1]), None)
+        if rec is None:
+            continue
+        rf = load(rec.file)
+        m1 = re.match(r'cannot find function `(\w+)` in this scope', msg)
+        m2 = re.match(r'no method named `(\w+)` found for', msg) or re.match(r'no function or associated item named `(\w+)` found for', msg)
+        m3 = (re.match(r'failed to resolve: use of (?:undeclared|unresolved) (?:crate or )?module(?: or unlinked crate)? `(\w+)`', msg)
+              or re.match(r'cannot find (?:module or crate|crate or module|module) `(\w+)` in this scope', msg))
+        try:
+            if m1:
+                rf.find_fn(m1.group(1))
+                out.append((rec.qual, dict(kind='free', file=rec.file, qual=m1.group(1))))
+            elif m2 and '::' in rec.qual:
+                ty = rec.qual.split('::')[0].split(' as ')[0]
+                q = '%s::%s' % (ty, m2.group(1))
+                rf.find_fn(q)
+                out.append((rec.qual, dict(kind='method', file=rec.file, qual=q)))
+            elif m3:
+                mod = m3.group(1)
+                src = lines[ln - 1]
+                fm = re.search(r'\b%s::(\w+)\s*\(' % re.escape(mod), src[max(0, prim[0]['column_start'] - 1 - len('crate::')):])
+                if not fm:
+                    continue
+                base = os.path.dirname(rec.file)
+                for cand in (os.path.join(base, mod + '.rs'), os.path.join(base, mod, 'mod.rs')):
+                    if os.path.exists(os.path.join(REPO, cand)):
+                        load(cand).find_fn(fm.group(1))
+                        out.append((rec.qual, dict(kind='module', module=mod, file=cand, qual=fm.group(1))))
+                        break
+        except ExtractError:
+            continue
+    return out
+
+
 
 
 LABEL_RE = re.compile(r'//\s*\[([A-Za-z0-9_.:-]+)\]')
